@@ -467,7 +467,9 @@ VariablesStack::findEntry(
     // There is guaranteed to be a context marker at
     // the bottom of the stack, so i should stop at
     // 1.
-    for(size_type i = nElems - 1; i > 0; --i)
+    // (Except while the top-level parameters that the caller supplied
+    // are being resolved:  then the stack is still empty.)
+    for(size_type i = nElems > 0 ? nElems - 1 : 0; i > 0; --i)
     {
         StackEntry&                 theEntry = m_stack[i];
 
@@ -505,7 +507,9 @@ VariablesStack::findEntry(
         }
     }
 
-    if(theEntryIndex == m_stack.size() && fIsParam == false && true == fSearchGlobalSpace && m_globalStackFrameIndex > 1)
+    // (m_globalStackFrameIndex is ~0u until the global stack frame is marked.)
+    if(theEntryIndex == m_stack.size() && fIsParam == false && true == fSearchGlobalSpace &&
+       m_globalStackFrameIndex > 1 && m_globalStackFrameIndex <= m_stack.size())
     {
         // Look in the global space
         for(size_type i = m_globalStackFrameIndex - 1; i > 0; i--)
